@@ -1928,8 +1928,14 @@ class Tag(PageElement):
         """
         inserted: List[PageElement] = []
         for new_child in new_children:
-            inserted.extend(self._insert(position, new_child))
-            position += 1
+            just_inserted = self._insert(position, new_child)
+            inserted.extend(just_inserted)
+            if just_inserted:
+                # The next element goes right after the one we just
+                # placed, wherever it ended up: moving an existing
+                # child, or expanding a BeautifulSoup object, shifts
+                # the positions.
+                position = self.index(just_inserted[-1]) + 1
         return inserted
 
     def _insert(self, position: int, new_child: _InsertableElement) -> List[PageElement]:
